@@ -521,10 +521,10 @@ func constFacts(pc []*Term) map[*Term]*Term {
 		}
 		if f.Op == "=" && len(f.Args) == 2 {
 			a, b := f.Args[0], f.Args[1]
-			if b.Op == "var" && a.IsConst() {
+			if isGroundCell(b) && a.IsConst() {
 				a, b = b, a
 			}
-			if a.Op == "var" && b.IsConst() {
+			if isGroundCell(a) && b.IsConst() {
 				if m == nil {
 					m = map[*Term]*Term{}
 				}
@@ -533,6 +533,22 @@ func constFacts(pc []*Term) map[*Term]*Term {
 		}
 	}
 	return m
+}
+
+// isGroundCell: a variable, or an uninterpreted array/function applied to constants (an input cell such as b[1]).
+func isGroundCell(t *Term) bool {
+	if t.Op == "var" {
+		return true
+	}
+	if t.Op == "app" && len(t.Args) > 0 {
+		for _, a := range t.Args {
+			if !a.IsConst() {
+				return false
+			}
+		}
+		return true
+	}
+	return false
 }
 
 var trueTerm, falseTerm *Term
